@@ -43,7 +43,8 @@ broadcast_var_alloc (void)
 
 int
 broadcast_var_set (SF_PRIVATE *psf, const SF_BROADCAST_INFO * info, size_t datasize)
-{	size_t len ;
+{	SF_BROADCAST_INFO_16K *old = NULL ;
+	size_t len ;
 
 	if (info == NULL)
 		return SF_FALSE ;
@@ -59,9 +60,16 @@ broadcast_var_set (SF_PRIVATE *psf, const SF_BROADCAST_INFO * info, size_t datas
 		return SF_FALSE ;
 		} ;
 
+	/* Once audio is in the file the chunk is rewritten in place : keep the current one in case the new one differs in size. */
+	if (psf->have_written && psf->broadcast_16k != NULL)
+	{	old = psf->broadcast_16k ;
+		psf->broadcast_16k = NULL ;
+		} ;
+
 	if (psf->broadcast_16k == NULL)
 	{	if ((psf->broadcast_16k = broadcast_var_alloc ()) == NULL)
-		{	psf->error = SFE_MALLOC_FAILED ;
+		{	psf->broadcast_16k = old ;
+			psf->error = SFE_MALLOC_FAILED ;
 			return SF_FALSE ;
 			} ;
 		} ;
@@ -89,6 +97,14 @@ broadcast_var_set (SF_PRIVATE *psf, const SF_BROADCAST_INFO * info, size_t datas
 
 	/* Currently writing this version. */
 	psf->broadcast_16k->version = 2 ;
+
+	if (old != NULL && old->coding_history_size != psf->broadcast_16k->coding_history_size)
+	{	free (psf->broadcast_16k) ;
+		psf->broadcast_16k = old ;
+		psf->error = SFE_CMD_HAS_DATA ;
+		return SF_FALSE ;
+		} ;
+	free (old) ;
 
 	return SF_TRUE ;
 } /* broadcast_var_set */
